@@ -1050,7 +1050,7 @@ class Interp:
         cv = c if isinstance(c, FnRef) else self.deref(c)
         if isinstance(cv, FnRef):
             last = _strip_generics(cv.name).split('::')[-1]
-            if last[:1].isupper() and not self.by_last.get(last):
+            if last[:1].isupper():
                 return self.adt(cv.name, list(args))     # tuple-struct / variant constructor as a function
             return self.invoke(cv.name, list(args), self.curfn[-1])
         if not (isinstance(cv, Agg) and cv.kind.startswith('closure@')):
